@@ -5,9 +5,10 @@ CONSTANTS
   ByteStrings <- BytesQuick
   NumSeqs <- NumsThorough
   NewObjs <- MCNewObjs
+  InheritBound <- MCInheritBound
   MaxDepth = 5
   Starts <- StartsRes
-  Allowed = {}
+  Allowed = {"resources.shadow.deep", "fresh.aboveMax", "maxid.setObject", "counts.indirect", "delete.bookmark"}
   Emit = TRUE
   EmitMod = 1000
   EmitModV = 200
